@@ -63,6 +63,10 @@ def check(ctx):
         if R.parse_res(g).get('ok') != '1' and not flag(R.parse_res(g)):
             ctx.lateuse_bad.append((c, g, l))
     R.compare(ctx, lrows, proj_all, 'C12 a pipeline subscribed long after it was built (and a second time later) behaves like a fresh one', nontrivial=lambda c, gd: True, recheck=1)
+    # the native rate limiter (a composition of GroupBy / MergeMap / WindowWhen(Interval) in plugins/ratelimit/native): one limiter value
+    # applied to two sources, both subscriptions alive, the first one then cancelled / unsubscribed - the second goes on unaffected
+    trows = R.run_kind(ctx, 'rate', extra=['-only', 'native-twin'])
+    R.compare(ctx, trows, proj_all, 'C12 one native rate-limiter value applied to two sources (both alive; the first goes away)', nontrivial=lambda c, gd: True, recheck=1)
     rows = run_reuse(ctx)
     R.compare(ctx, rows, proj_all, 'C12 re-subscription / re-application of one operator value',
               nontrivial=lambda c, gd: 'N' in c and gd.get('t1', '-') != '-')
